@@ -5,6 +5,7 @@ from fractions import Fraction
 
 from ..rulekit import *
 from ..norm import Normalizer, Poly
+from . import _kit_c03 as K
 
 R = Rules(
     "C03",
@@ -21,14 +22,21 @@ R = Rules(
         "premises at most 1+MAX_RETRANSMIT transmissions occur with gaps t0*2^i and the give-up fires "
         "t0*(2^(N+1)-1) <= MAX_TRANSMIT_WAIT after the first copy.  Wall-clock behaviour is not decided."
     ),
-    rule_text="dominance/guard rules on per-function CFGs, polynomial normal forms compared with reference expressions, class-hierarchy facts",
+    rule_text="obligations over the path model of each function (comparison facts per path), def-use resolved values compared by polynomial normal form, one model for callables / dict accesses / call arguments, finite-domain evaluation of dispatch_message, class-hierarchy facts",
 )
 
 MM = "messagemanager.MessageManager."
+TABLE = "self._active_exchanges"
 TUNING = {"ACK_TIMEOUT", "ACK_RANDOM_FACTOR", "MAX_RETRANSMIT", "MAX_TRANSMIT_SPAN", "MAX_TRANSMIT_WAIT",
           "MAX_LATENCY", "PROCESSING_DELAY", "MAX_RTT", "EXCHANGE_LIFETIME", "EMPTY_ACK_DELAY", "NSTART",
           "OBSERVATION_RESET_TIME", "DEFAULT_LEISURE", "REQUEST_TIMEOUT"}
 WIRE_ATTRS = {"mtype", "mid", "code", "token", "payload", "version", "remote", "opt", "_mtype", "_mid", "_token"}
+MTYPES = ["CON", "NON", "ACK", "RST"]
+
+
+def _fn(ctx, name):
+    """The anchored function as the clauses see it (engine canonical form + local view, see _kit_c03.view)."""
+    return K.view(ctx.prog.func(MM + name))
 
 
 def _msgparam(fi):
@@ -42,176 +50,272 @@ def _is_param_unmodified(fi, name):
     return not writes_to_name(fi.node, name)
 
 
+def _is_name(fi, e, name):
+    """Does e denote the (never rebound) local/parameter `name`?  Single-assignment aliases are followed."""
+    e = resolve_local(fi.node, e)
+    return isinstance(e, ast.Name) and e.id == name and _is_param_unmodified(fi, name)
+
+
+def _schedule_args(ctx, fi, call):
+    """(message, timeout, counter) argument expressions of a `self._schedule_retransmit(...)` call,
+    positional or keyword."""
+    sched = ctx.prog.func(MM + "_schedule_retransmit")
+    sp = params(sched)
+    ctx.need(len(sp) == 3, "_schedule_retransmit signature changed")
+    b = K.method_args(sched, call)
+    ctx.need(b is not None, "_schedule_retransmit call with a shape outside the rule's vocabulary: %s" % stmt_text(call))
+    return [b[x] for x in sp]
+
+
+def _uniform_bounds(ctx, fi, t):
+    """(lo, hi) polynomials when the closed expression t is a uniform draw from [lo, hi]:
+    random.uniform(lo, hi) (positional/keyword, `from random import uniform`) or the affine form
+    lo + random.random()*(hi - lo).  Both denote a value of the closed interval spanned by lo and hi."""
+    N = Normalizer(env=norm.local_env(fi.node))
+    if isinstance(t, ast.Call) and K.resolved_func_name(ctx.prog, fi, t.func) == "random.uniform":
+        args = list(t.args)
+        kw = {k.arg: k.value for k in t.keywords}
+        if len(args) == 2 and not kw:
+            return N.poly(args[0]), N.poly(args[1])
+        if len(args) == 1 and set(kw) == {"b"}:
+            return N.poly(args[0]), N.poly(kw["b"])
+        if not args and set(kw) == {"a", "b"}:
+            return N.poly(kw["a"]), N.poly(kw["b"])
+        return None
+    draws = [c for c in ast.walk(t) if isinstance(c, ast.Call) and K.resolved_func_name(ctx.prog, fi, c.func) == "random.random" and not c.args]
+    if len(draws) == 1:
+        try:
+            p = N.poly(t)
+        except norm.NormError:
+            return None
+        atom = N.atom_name(draws[0])
+        if K.poly_degree(p, atom) == 1:
+            return K.poly_subst_const(p, atom, 0), K.poly_subst_const(p, atom, 1)
+    return None
+
+
+def _initial_timeout(ctx, fi, m, call, t):
+    """Obligations on one (closed) expression the initial timeout may come from."""
+    try:
+        bounds = _uniform_bounds(ctx, fi, t)
+    except norm.NormError:
+        bounds = None
+    if bounds is None:
+        opaque = [c_ for c_ in ast.walk(t) if isinstance(c_, ast.Call) and K.resolve_callee(ctx.prog, fi, c_) is not None]
+        ctx.need(not opaque, "_add_exchange: the initial timeout is computed by %s, which is outside the rule's vocabulary (not a straight-line helper)" % (stmt_text(opaque[0]) if opaque else ""))
+        ctx.ob("initial timeout is drawn by random.uniform(lo, hi)", False, fi, call, detail="timeout argument resolves to %s" % stmt_text(t))
+        return
+    T = Poly.atom("%s.transport_tuning.ACK_TIMEOUT" % m)
+    F = Poly.atom("%s.transport_tuning.ACK_RANDOM_FACTOR" % m)
+    lo, hi = bounds
+    if lo == T * F and hi == T:
+        lo, hi = hi, lo  # uniform(b, a) draws from the same interval
+    ctx.ob("lower bound of the initial timeout is ACK_TIMEOUT of the message's transport tuning", lo == T and _is_param_unmodified(fi, m), fi, call, detail="lo = %r" % lo,
+           construct="initial timeout: %s" % stmt_text(t))
+    ctx.ob("upper bound of the initial timeout is ACK_TIMEOUT*ACK_RANDOM_FACTOR of the message's transport tuning", hi == T * F and _is_param_unmodified(fi, m), fi, call, detail="hi = %r" % hi,
+           construct="initial timeout: %s" % stmt_text(t))
+
+
 @R.clause("C03.a", "initial timeout is uniform(ACK_TIMEOUT, ACK_TIMEOUT*ACK_RANDOM_FACTOR) of the message's tuning; first schedule uses counter 0")
 def a(ctx):
-    fi = ctx.prog.func(MM + "_add_exchange")
+    fi = _fn(ctx, "_add_exchange")
     m = _msgparam(fi)
-    calls = list(find("self._schedule_retransmit($*args)", fi.node))
+    calls = K.self_calls(fi, "_schedule_retransmit")
     ctx.floor("calls of _schedule_retransmit in _add_exchange", len(calls), 1)
-    for call, b in calls:
-        args = b["args"]
-        ok_shape = len(args) == 3 and not call.keywords
-        ctx.need(ok_shape, "_schedule_retransmit call with unexpected arity")
-        ctx.ob("scheduled message is the message being added", isinstance(args[0], ast.Name) and args[0].id == m and _is_param_unmodified(fi, m), fi, call)
-        N = Normalizer()
-        ctx.ob("first retransmission counter is 0", N.poly(args[2]) == Poly.const(0), fi, call, detail="counter argument: %s" % ast.unparse(args[2]))
-        t = resolve_local(fi.node, args[1])
-        mb = match("random.uniform($lo, $hi)", t)
-        if mb is None:
-            ctx.ob("initial timeout is drawn by random.uniform(lo, hi)", False, fi, call, detail="timeout argument resolves to %s" % stmt_text(t))
-            continue
-        T = Poly.atom("%s.transport_tuning.ACK_TIMEOUT" % m)
-        F = Poly.atom("%s.transport_tuning.ACK_RANDOM_FACTOR" % m)
-        env = norm.local_env(fi.node)
-        N = Normalizer(env=env)
-        lo, hi = N.poly(mb["lo"]), N.poly(mb["hi"])
-        ctx.ob("lower bound of the initial timeout is ACK_TIMEOUT of the message's transport tuning", lo == T, fi, t, detail="lo = %r" % lo)
-        ctx.ob("upper bound of the initial timeout is ACK_TIMEOUT*ACK_RANDOM_FACTOR of the message's transport tuning", hi == T * F, fi, t, detail="hi = %r" % hi)
+    for call in calls:
+        am, at, ac = _schedule_args(ctx, fi, call)
+        ctx.ob("scheduled message is the message being added", _is_name(fi, am, m), fi, call)
+        N = Normalizer(env=norm.local_env(fi.node))
+        try:
+            c0 = N.poly(ac)
+        except norm.NormError:
+            c0 = None
+        ctx.ob("first retransmission counter is 0", c0 == Poly.const(0), fi, call, detail="counter argument: %s" % ast.unparse(ac))
+        # the value passed as timeout, through locals and straight-line helpers; every arm of a conditional
+        # expression must be such a draw
+        arms = [K.closed(ctx.prog, fi, at)]
+        while any(isinstance(x, ast.IfExp) for x in arms):
+            arms = [y for x in arms for y in ([x.body, x.orelse] if isinstance(x, ast.IfExp) else [x])]
+        for t in arms:
+            _initial_timeout(ctx, fi, m, call, t)
 
-    # _schedule_retransmit arms call_later(timeout, cb) where cb calls _retransmit(message, timeout, counter)
-    sf = ctx.prog.func(MM + "_schedule_retransmit")
+    # _schedule_retransmit arms a timer of exactly `timeout` whose callback calls _retransmit(message, timeout, counter)
+    sf = _fn(ctx, "_schedule_retransmit")
     sp = params(sf)
     ctx.need(len(sp) == 3, "_schedule_retransmit signature changed")
-    cl = list(find("self.loop.call_later($d, $cb, $*rest)", sf.node))
-    ctx.floor("call_later in _schedule_retransmit", len(cl), 1)
-    for call, b in cl:
-        N = Normalizer(env=norm.local_env(sf.node))
-        ctx.ob("timer delay is exactly the timeout parameter", N.poly(b["d"]) == Poly.atom(sp[1]) and _is_param_unmodified(sf, sp[1]), sf, call, detail="delay = %s" % ast.unparse(b["d"]))
-        ok, why = _callback_calls_retransmit(ctx, sf, b["cb"], b["rest"], sp)
+    rt = ctx.prog.func(MM + "_retransmit")
+    rp = params(rt)
+    ctx.need(len(rp) == 3, "_retransmit signature changed")
+    timers = K.calls_on(sf, "self.loop", ("call_later", "call_at"))
+    ctx.floor("timer calls in _schedule_retransmit", len(timers), 1)
+    N = Normalizer(env=norm.local_env(sf.node))
+    for call in timers:
+        ctx.need(len(call.args) >= 2 and not any(isinstance(x, ast.Starred) for x in call.args), "timer call with a shape outside the rule's vocabulary")
+        d, cb, rest = call.args[0], call.args[1], list(call.args[2:])
+        try:
+            dp = N.poly(d)
+            if resolve_local(sf.node, call.func).attr == "call_at":
+                # call_at(loop.time() + timeout, ...) is call_later(timeout, ...)
+                dp = dp - Poly.atom("self.loop.time()")
+        except norm.NormError:
+            dp = None
+        ctx.ob("timer delay is exactly the timeout parameter", dp == Poly.atom(sp[1]) and _is_param_unmodified(sf, sp[1]), sf, call, detail="delay = %s" % ast.unparse(d))
+        f, args, kws, why = K.callable_call(ctx.prog, sf, cb, rest, "_retransmit")
+        ok = False
+        if f is not None:
+            bound = K.bind_args(rt.node, args, kws, True)
+            if chain(resolve_local(sf.node, f.value)) != "self":
+                why = "callback calls _retransmit of %s" % stmt_text(f.value)
+            elif bound is None:
+                why = "callback passes %s" % [ast.unparse(x) for x in args]
+            else:
+                # same message object, and (timeout, counter) equal as values; parameters captured by the
+                # callback (by default argument, partial or closure) are never rebound in _schedule_retransmit
+                bad = None
+                if not _is_name(sf, bound[rp[0]], sp[0]):
+                    bad = "message passed is %s" % ast.unparse(bound[rp[0]])
+                for i in (1, 2):
+                    try:
+                        v = N.poly(bound[rp[i]])
+                    except norm.NormError:
+                        v = None
+                    if not (v == Poly.atom(sp[i]) and _is_param_unmodified(sf, sp[i])):
+                        bad = bad or "argument %s is not the scheduled %s" % (ast.unparse(bound[rp[i]]), sp[i])
+                ok = bad is None
+                why = bad or "callback passes (%s)" % ", ".join(sp)
         ctx.ob("timer callback invokes _retransmit(message, timeout, counter) with the scheduled values", ok, sf, call, detail=why)
-        # the handle must be returned
-        ret = [n for n in walk_no_nested(sf.node) if isinstance(n, ast.Return)]
-        returned = any(r.value is not None and (r.value is call or (isinstance(r.value, ast.Name) and resolve_local(sf.node, r.value) is call)) for r in ret)
+        rets = [n for n in walk_no_nested(sf.node) if isinstance(n, ast.Return)]
+        returned = bool(rets) and all(r.value is not None and resolve_local(sf.node, r.value) is call for r in rets)
         ctx.ob("_schedule_retransmit returns the timer handle", returned, sf, call)
 
 
-def _callback_calls_retransmit(ctx, sf, cb, rest, sp):
-    """cb is a nested def / lambda / functools.partial(self._retransmit, ...)"""
-    def binds_to_outer(fnode, name, outer):
-        # default-argument capture `x=x` or closure use
-        a = fnode.args
-        allargs = a.posonlyargs + a.args
-        defaults = [None] * (len(allargs) - len(a.defaults)) + list(a.defaults)
-        for arg, d in zip(allargs, defaults):
-            if arg.arg == name:
-                return d is not None and isinstance(d, ast.Name) and d.id == outer
-        for arg, d in zip(a.kwonlyargs, a.kw_defaults):
-            if arg.arg == name:
-                return d is not None and isinstance(d, ast.Name) and d.id == outer
-        # closure
-        return name == outer and not writes_to_name(fnode, name)
-
-    pb = match("functools.partial(self._retransmit, $*a)", cb)
-    if pb is not None:
-        a = list(pb["a"]) + list(rest)
-        ok = len(a) == 3 and all(isinstance(x, ast.Name) and x.id == p for x, p in zip(a, sp))
-        return ok, "partial args %s" % [ast.unparse(x) for x in a]
-    if match("self._retransmit", cb) is not None:
-        a = list(rest)
-        ok = len(a) == 3 and all(isinstance(x, ast.Name) and x.id == p for x, p in zip(a, sp))
-        return ok, "call_later args %s" % [ast.unparse(x) for x in a]
-    fnode = None
-    if isinstance(cb, ast.Lambda):
-        fnode = cb
-    elif isinstance(cb, ast.Name):
-        for n in walk_no_nested(sf.node):
-            if isinstance(n, ast.FunctionDef) and n.name == cb.id:
-                fnode = n
-    if fnode is None:
-        return False, "callback %s is not a nested def, lambda or partial" % ast.unparse(cb)
-    calls = [c for c in ast.walk(fnode) if isinstance(c, ast.Call) and isinstance(c.func, ast.Attribute) and c.func.attr == "_retransmit"]
-    if len(calls) != 1:
-        return False, "%d _retransmit calls in callback" % len(calls)
-    c = calls[0]
-    if len(c.args) != 3 or c.keywords:
-        return False, "arity"
-    for x, p in zip(c.args, sp):
-        if not (isinstance(x, ast.Name) and binds_to_outer(fnode, x.id, p)):
-            return False, "argument %s is not the scheduled %s" % (ast.unparse(x), p)
-    return True, "callback passes (%s)" % ", ".join(sp)
-
-
-def _retransmit_parts(ctx):
-    fi = ctx.prog.func(MM + "_retransmit")
+def _retransmit_model(ctx):
+    """(view, params, PathFacts, fact 'counter < MAX_RETRANSMIT of the message's tuning', its negation)."""
+    fi = _fn(ctx, "_retransmit")
     p = params(fi)
     ctx.need(len(p) == 3, "_retransmit signature changed")
-    cfg = cfg_of(fi)
-    return fi, p, cfg
-
-
-def _guard_is_counter_lt_max(cfg, nid, p):
-    """Is nid dominated by (counter - MAX_RETRANSMIT < 0) being true?"""
     m, t, c = p
+    pf = K.PathFacts(fi)
     N = Normalizer()
     want = ("lt", Poly.atom(c) - Poly.atom("%s.transport_tuning.MAX_RETRANSMIT" % m))
-    facts = cmp_guard_nf(cfg, nid, N)
-    return want in facts, facts
+    return fi, p, pf, want, N.negate(want)
+
+
+def _fmt_facts(facts):
+    return sorted(map(repr, facts))
+
+
+def _need_interpretable(ctx, pf, path, counter):
+    """A path that lacks the expected fact although it branches on the counter through a condition the
+    normaliser cannot express (`counter in range(n)`, a predicate call ...) is refused, not reported."""
+    if path is None:
+        return
+    for n in path.nodes:
+        nd = pf.cfg.nodes[n]
+        if nd.kind in ("T", "F") and isinstance(nd.ast, ast.expr):
+            e = resolve_local(pf.fi.node, nd.ast) if isinstance(nd.ast, ast.Name) else nd.ast
+            if counter in names_in(e):
+                c_ = pf._outcome(n)
+                ctx.need(c_ is not None and c_[0] in ("lt", "le", "eq", "ne"), "_retransmit: the condition `%s` on the retransmission counter is outside the rule's vocabulary" % stmt_text(nd.ast))
 
 
 @R.clause("C03.b", "_retransmit: one guarded transmission of the unmodified message, re-arm with (message, 2*timeout, counter+1), nothing re-armed on give-up")
 def b(ctx):
-    fi, p, cfg = _retransmit_parts(ctx)
+    # Decided on the path model of _retransmit: a path is a *retransmission path* when the branch outcomes on it
+    # establish counter - MAX_RETRANSMIT < 0 for the incoming counter (normal form; `not (a < b)`, `a >= b`,
+    # mirrored operands, named conditions, early return vs. if/else all give the same fact).  Necessary
+    # conditions: a transmission / re-arm lies only on retransmission paths, every retransmission path has
+    # exactly one of each (send before re-arm), and the re-arm passes (same message, 2*timeout, counter+1).
+    fi, p, pf, want, notwant = _retransmit_model(ctx)
     m, t, c = p
-    sends = list(find("self._send_via_transport($*a)", fi.node))
+    cfg = pf.cfg
+    paths = pf.paths()
+    ctx.need(paths, "_retransmit has no normal path")
+    sends = K.self_calls(fi, "_send_via_transport")
     ctx.floor("transmissions in _retransmit", len(sends), 1)
-    ctx.ob("exactly one transmission site in _retransmit", len(sends) == 1, fi, sends[-1][0], detail="%d sites" % len(sends))
-    for call, bnd in sends:
+    send_nodes = set()
+    for call in sends:
+        send_nodes |= pf.nodes_of(call)
+    rearms = K.self_calls(fi, "_schedule_retransmit") + K.calls_on(fi, "self.loop", ("call_later", "call_at"))
+    rearm_nodes = set()
+    for call in rearms:
+        rearm_nodes |= pf.nodes_of(call)
+    sv = ctx.prog.func(MM + "_send_via_transport")
+    for call in sends:
+        nodes = pf.nodes_of(call)
+        through = [q for q in paths if nodes & set(q.nodes)]
+        bad = next((q for q in through if want not in pf.facts(q)), None)
+        _need_interpretable(ctx, pf, bad, c)
+        ctx.ob("transmission is guarded by retransmission_counter < MAX_RETRANSMIT of the message's tuning", bool(through) and bad is None, fi, call,
+               detail="on the path [%s] only %s is established" % (pf.describe(bad), _fmt_facts(pf.facts(bad))) if bad is not None else None)
+        ba = K.method_args(sv, call)
+        arg = ba[params(sv)[0]] if ba else None
+        ctx.ob("the retransmitted object is the message parameter itself (byte-identical copy)", arg is not None and _is_name(fi, arg, m), fi, call)
+        ctx.ob("the transmission is not inside a loop", all(n not in cfg.reach({n}) for n in nodes), fi, call)
+    twice = next((q for q in paths if sum(1 for n in q.nodes if n in send_nodes) > 1), None)
+    ctx.ob("at most one transmission per expiry of the retransmission timer", twice is None, fi, sends[-1],
+           detail="path [%s] transmits more than once" % pf.describe(twice) if twice is not None else None, construct="_retransmit: transmissions per path")
+    retx = [q for q in paths if want in pf.facts(q)]
+    ctx.need(retx, "_retransmit has no path on which counter < MAX_RETRANSMIT is established")
+    miss_send = next((q for q in retx if not (send_nodes & set(q.nodes))), None)
+    miss_arm = next((q for q in retx if sum(1 for n in q.nodes if n in rearm_nodes) != 1), None)
+    ctx.ob("while counter < MAX_RETRANSMIT the message is transmitted again", miss_send is None, fi, fi.node, construct="_retransmit: retransmission path transmits",
+           detail="path [%s] does not transmit" % pf.describe(miss_send) if miss_send is not None else None)
+    ctx.ob("while counter < MAX_RETRANSMIT exactly one new timer is armed (the exchange neither stalls nor forks)", miss_arm is None, fi, fi.node, construct="_retransmit: retransmission path re-arms once",
+           detail="path [%s] arms %d timers" % (pf.describe(miss_arm), sum(1 for n in miss_arm.nodes if n in rearm_nodes)) if miss_arm is not None else None)
+    inserts = [a_ for a_ in K.table_accesses(fi, TABLE) if a_.kind == "insert"]
+    for call in rearms:
+        nodes = pf.nodes_of(call)
         nid = cfg.loc1(call)
-        ok, facts = _guard_is_counter_lt_max(cfg, nid, p)
-        # the counter tested must be the incoming one: no write to it may precede the test
-        cval = value_at(fi, c, nid)
-        ctx.ob("transmission is guarded by retransmission_counter < MAX_RETRANSMIT of the message's tuning", ok and cval == Poly.atom(c), fi, call,
-               detail="guards: %s; counter value at send: %r" % (sorted(map(repr, facts)), cval))
-        a = bnd["a"]
-        ctx.ob("the retransmitted object is the message parameter itself (byte-identical copy)", len(a) == 1 and isinstance(a[0], ast.Name) and a[0].id == m and _is_param_unmodified(fi, m), fi, call)
-        ctx.ob("the transmission is not inside a loop", nid not in cfg.reach({nid}), fi, call)
-    rearms = list(find("self._schedule_retransmit($*a)", fi.node)) + list(find("self.loop.call_later($*a)", fi.node))
-    ctx.floor("re-arm sites in _retransmit", len(rearms), 1)
-    ctx.ob("exactly one re-arm site", len(rearms) == 1, fi, rearms[-1][0], detail="%d sites" % len(rearms))
-    for call, bnd in rearms:
-        nid = cfg.loc1(call)
-        ok, facts = _guard_is_counter_lt_max(cfg, nid, p)
-        ctx.ob("re-arm happens only while counter < MAX_RETRANSMIT (the give-up arm re-arms nothing)", ok, fi, call, detail="guards: %s" % sorted(map(repr, facts)))
-        a = bnd["a"]
-        if call_name(call) != "self._schedule_retransmit" or len(a) != 3:
+        through = [q for q in paths if nodes & set(q.nodes)]
+        bad = next((q for q in through if want not in pf.facts(q)), None)
+        _need_interpretable(ctx, pf, bad, c)
+        ctx.ob("re-arm happens only while counter < MAX_RETRANSMIT (the give-up arm re-arms nothing)", bool(through) and bad is None, fi, call,
+               detail="on the path [%s] only %s is established" % (pf.describe(bad), _fmt_facts(pf.facts(bad))) if bad is not None else None)
+        f = resolve_local(fi.node, call.func)
+        if f.attr != "_schedule_retransmit":
             ctx.ob("re-arm goes through _schedule_retransmit(message, timeout, counter)", False, fi, call)
             continue
-        ctx.ob("re-armed message is the same object", isinstance(a[0], ast.Name) and a[0].id == m and _is_param_unmodified(fi, m), fi, call)
-        tv = _arg_value(fi, a[1], nid)
-        cv = _arg_value(fi, a[2], nid)
+        am, at, ac = _schedule_args(ctx, fi, call)
+        ctx.ob("re-armed message is the same object", _is_name(fi, am, m), fi, call)
+        tv = _arg_value(fi, at, nid)
+        cv = _arg_value(fi, ac, nid)
         ctx.ob("next timeout is exactly twice the previous one", tv == Poly.const(2) * Poly.atom(t), fi, call, detail="timeout passed = %r" % tv)
         ctx.ob("retransmission counter advances by exactly one", cv == Poly.atom(c) + Poly.const(1), fi, call, detail="counter passed = %r" % cv)
-        # a send must precede every re-arm
-        send_nodes = {cfg.loc1(s) for s, _ in sends}
-        ctx.ob("every re-arm is preceded by a transmission", any(cfg.dominates(s, nid) for s in send_nodes), fi, call)
-        # the handle is stored back under the same key
+        unsent = next((q for q in through if not any(n in send_nodes for n in q.nodes[: min(q.nodes.index(x) for x in nodes if x in q.nodes)])), None)
+        ctx.ob("every re-arm is preceded by a transmission", unsent is None, fi, call)
+        # the handle is stored back into the exchange table (same spelling-independent model as C03.d)
         stored = False
-        for kind, st in stores_to(fi.node, "self._active_exchanges"):
-            if kind == "setitem" and isinstance(st, ast.Assign) and isinstance(st.value, ast.Tuple) and len(st.value.elts) == 2:
-                h = st.value.elts[1]
-                if (h is call) or (isinstance(h, ast.Name) and resolve_local_at(fi, h, call)):
+        for ins in inserts:
+            vals = K.possible_values(fi, ins.value) if ins.value is not None else None
+            for v in vals or []:
+                if isinstance(v, (ast.Tuple, ast.List)) and len(v.elts) == 2 and resolve_local(fi.node, v.elts[1]) is call:
                     stored = True
         ctx.ob("the new timer handle is stored in _active_exchanges", stored, fi, call)
 
 
-def resolve_local_at(fi, name_node, call):
-    for w in writes_to_name(fi.node, name_node.id):
-        if isinstance(w, ast.Assign) and w.value is call:
-            return True
-    return False
-
-
 def _arg_value(fi, arg, nid):
-    """Polynomial value of a call argument, composing dominating writes of the
-    locals it mentions."""
+    """Polynomial value of a call argument at CFG node nid: single-assignment locals are substituted,
+    re-assigned locals/parameters are replaced by the composition of the writes that dominate nid
+    (`t *= 2`, `t = 2*t`, `n += 1` ...)."""
+    env = norm.local_env(fi.node)
     penv = {}
-    for nm in names_in(arg):
+    todo = list(names_in(arg))
+    seen = set()
+    while todo:
+        nm = todo.pop()
+        if nm in seen:
+            continue
+        seen.add(nm)
+        if nm in env:
+            todo.extend(names_in(env[nm]))
+            continue
         v = value_at(fi, nm, nid)
         if v is None:
             return None
         penv[nm] = v
     try:
-        return Normalizer(penv=penv).poly(arg)
+        return Normalizer(env=env, penv=penv).poly(arg)
     except norm.NormError:
         return None
 
@@ -220,8 +324,22 @@ def _arg_value(fi, arg, nid):
 def c(ctx):
     n = 0
     for name in ("_add_exchange", "_schedule_retransmit", "_retransmit", "_send_via_transport"):
-        fi = ctx.prog.func(MM + name)
+        fi = _fn(ctx, name)
         m = _msgparam(fi)
+        # the message parameter and every local that is (possibly) bound to it
+        alias = {m}
+        grew = True
+        while grew:
+            grew = False
+            for node in ast.walk(fi.node):
+                if isinstance(node, ast.Assign) and isinstance(node.value, ast.Name) and node.value.id in alias:
+                    for t in node.targets:
+                        if isinstance(t, ast.Name) and t.id not in alias:
+                            alias.add(t.id)
+                            grew = True
+                elif isinstance(node, ast.NamedExpr) and isinstance(node.value, ast.Name) and node.value.id in alias and node.target.id not in alias:
+                    alias.add(node.target.id)
+                    grew = True
         bad = []
         for node in ast.walk(fi.node):
             tgts = []
@@ -234,16 +352,23 @@ def c(ctx):
             for t in tgts:
                 for tt in (t.elts if isinstance(t, (ast.Tuple, ast.List)) else [t]):
                     base = tt
-                    while isinstance(base, ast.Subscript):
+                    while isinstance(base, (ast.Subscript, ast.Starred)):
                         base = base.value
                     ch = chain(base)
-                    if ch and ch.split(".")[0] == m and len(ch.split(".")) > 1 and ch.split(".")[1] in WIRE_ATTRS:
+                    if ch and ch.split(".")[0] in alias and len(ch.split(".")) > 1 and ch.split(".")[1] in WIRE_ATTRS:
                         bad.append(node)
             if isinstance(node, ast.Call):
                 cn = call_name(node) or ""
                 parts = cn.split(".")
-                if parts[0] == m and len(parts) >= 2 and parts[-1] in ("set_request_uri", "add_option", "delete_option", "clear", "append"):
+                if parts[0] in alias and len(parts) >= 2 and parts[-1] in ("set_request_uri", "add_option", "delete_option", "clear", "append"):
                     bad.append(node)
+                if cn in ("setattr", "delattr") and len(node.args) >= 2 and chain(node.args[0]) in alias:
+                    try:
+                        an = norm.consteval(node.args[1])
+                    except norm.NormError:
+                        an = None
+                    if an is None or an in WIRE_ATTRS:
+                        bad.append(node)
         n += 1
         ctx.ob("%s does not modify the message's wire-relevant attributes" % name, not bad, fi, bad[0] if bad else fi.node,
                construct=stmt_text(bad[0]) if bad else name)
@@ -251,115 +376,256 @@ def c(ctx):
 
 
 def _key_is_remote_mid(fi, e, m):
-    e = resolve_local(fi.node, e)
-    b = match("($a, $b)", e)
-    return b is not None and chain(b["a"]) == m + ".remote" and chain(b["b"]) == m + ".mid"
-
-
-def _exchange_key_uses(fi):
-    """All key expressions used with self._active_exchanges in fi."""
-    keys = []
-    for n in ast.walk(fi.node):
-        if isinstance(n, ast.Subscript) and chain(n.value) == "self._active_exchanges":
-            keys.append((n, n.slice))
-        elif isinstance(n, ast.Call) and isinstance(n.func, ast.Attribute) and chain(n.func.value) == "self._active_exchanges" and n.func.attr in ("pop", "get", "setdefault") and n.args:
-            keys.append((n, n.args[0]))
-        elif isinstance(n, ast.Compare) and len(n.ops) == 1 and isinstance(n.ops[0], (ast.In, ast.NotIn)) and chain(n.comparators[0]) == "self._active_exchanges":
-            keys.append((n, n.left))
-    return keys
+    """Every expression the key may come from is the pair (message.remote, message.mid) of the never rebound
+    message parameter (aliases of the message / of its attributes are followed)."""
+    vals = K.possible_values(fi, e)
+    if not vals or not _is_param_unmodified(fi, m):
+        return False
+    for v in vals:
+        if not (isinstance(v, ast.Tuple) and len(v.elts) == 2):
+            return False
+        if K.canon_chain(fi, v.elts[0]) != m + ".remote" or K.canon_chain(fi, v.elts[1]) != m + ".mid":
+            return False
+    return True
 
 
 def retransmit_removes_exchange(ctx):
     """In _retransmit every path first takes the exchange out of _active_exchanges (the retransmission arm puts
     the fresh handle back, the give-up arm leaves the remote without an exchange)."""
-    fi = ctx.prog.func(MM + "_retransmit")
+    fi = _fn(ctx, "_retransmit")
     cfg = cfg_of(fi)
-    rem = [cfg.loc1(n) for k, n in stores_to(fi.node, "self._active_exchanges", nested=False) if k in ("pop", "delitem")]
+    rem = []
+    for a_ in K.table_accesses(fi, TABLE, nested=False):
+        if a_.kind == "remove":
+            rem.extend(cfg.locate(a_.node))
     ctx.ob("when the retransmission timer fires the exchange is taken out of _active_exchanges on every path (a timed-out exchange does not stay 'active')",
            bool(rem) and cfg.must_pass(cfg.entry, rem), fi, fi.node, construct="_retransmit: removal of the fired exchange",
            detail="%d removal site(s)" % len(rem))
+
+
+def _membership_evidence(fi, cfg, nid, key):
+    """Is CFG node nid dominated by a branch outcome that establishes `key in table`?  Spellings: `k in d`
+    true, `k not in d` false, `d.get(k)` / `d.get(k, None)` (directly or through a local) truthy or
+    `is not None` -- the stored values are pairs, never None/empty."""
+    for e, pol in guard_exprs(cfg, nid):
+        for _ in range(4):
+            if isinstance(e, ast.UnaryOp) and isinstance(e.op, ast.Not):
+                e, pol = e.operand, not pol
+            else:
+                break
+        if isinstance(e, ast.Compare) and len(e.ops) == 1:
+            op, l, r = e.ops[0], e.left, e.comparators[0]
+            if isinstance(op, (ast.In, ast.NotIn)) and chain(resolve_local(fi.node, r)) == TABLE and same(resolve_local(fi.node, l), resolve_local(fi.node, key)):
+                if pol == isinstance(op, ast.In):
+                    return True
+            if isinstance(op, (ast.Is, ast.IsNot)) and isinstance(r, ast.Constant) and r.value is None and _is_lookup(fi, l, key):
+                if pol == isinstance(op, ast.IsNot):
+                    return True
+        elif pol and _is_lookup(fi, e, key):
+            return True
+    return False
+
+
+def _is_lookup(fi, e, key):
+    e = resolve_local(fi.node, e)
+    if isinstance(e, ast.Call) and isinstance(e.func, ast.Attribute) and e.func.attr == "get" and chain(resolve_local(fi.node, e.func.value)) == TABLE and e.args:
+        dflt_none = len(e.args) == 1 or (isinstance(e.args[1], ast.Constant) and e.args[1].value is None)
+        return dflt_none and same(resolve_local(fi.node, e.args[0]), resolve_local(fi.node, key))
+    return False
+
+
+def _catches_keyerror(cfg, nid):
+    for d, lab in cfg.succ[nid]:
+        if lab == "exc" and cfg.nodes[d].kind == "handler":
+            t = cfg.nodes[d].ast.type
+            names = [] if t is None else [ast.unparse(x) for x in (t.elts if isinstance(t, ast.Tuple) else [t])]
+            if t is None or set(names) & {"KeyError", "LookupError", "Exception", "BaseException"}:
+                return True
+    return False
 
 
 @R.clause("C03.d", "exchange key is (remote, mid) at insertion, retransmission and removal; ACK/RST cancel the stored timer; only RST fires the monitor")
 def d(ctx):
     total = 0
     for name in ("_add_exchange", "_retransmit", "_remove_exchange"):
-        fi = ctx.prog.func(MM + name)
+        fi = _fn(ctx, name)
         m = _msgparam(fi)
-        uses = _exchange_key_uses(fi)
+        uses = [a_ for a_ in K.table_accesses(fi, TABLE) if a_.key is not None]
         ctx.floor("uses of _active_exchanges in %s" % name, len(uses), 1)
-        for node, key in uses:
+        for a_ in uses:
             total += 1
-            ctx.ob("%s addresses _active_exchanges by (message.remote, message.mid)" % name, _key_is_remote_mid(fi, key, m), fi, node,
-                   detail="key = %s" % stmt_text(resolve_local(fi.node, key)))
-    ctx.floor("key uses over the three functions", total, 5)
+            ctx.ob("%s addresses _active_exchanges by (message.remote, message.mid)" % name, _key_is_remote_mid(fi, a_.key, m), fi, a_.node,
+                   detail="key = %s" % stmt_text(resolve_local(fi.node, a_.key)))
+    ctx.floor("key uses over the three functions", total, 4)
 
     retransmit_removes_exchange(ctx)
     # _add_exchange stores (monitor parameter, handle from _schedule_retransmit)
-    fi = ctx.prog.func(MM + "_add_exchange")
+    fi = _fn(ctx, "_add_exchange")
     p = params(fi)
-    st = [s for k, s in stores_to(fi.node, "self._active_exchanges") if k == "setitem"]
-    ctx.floor("insertions into _active_exchanges in _add_exchange", len(st), 1)
-    for s in st:
-        v = s.value if isinstance(s, ast.Assign) else None
-        ok = isinstance(v, ast.Tuple) and len(v.elts) == 2 and isinstance(v.elts[0], ast.Name) and v.elts[0].id == p[1]
-        h = resolve_local(fi.node, v.elts[1]) if ok else None
-        ok = ok and match("self._schedule_retransmit($*a)", h) is not None
-        ctx.ob("the stored exchange is (error monitor, handle of the scheduled retransmission)", ok, fi, s)
+    ins = [a_ for a_ in K.table_accesses(fi, TABLE) if a_.kind == "insert"]
+    ctx.floor("insertions into _active_exchanges in _add_exchange", len(ins), 1)
+    for a_ in ins:
+        vals = K.possible_values(fi, a_.value) if a_.value is not None else None
+        ok = bool(vals)
+        ctx.need(not any(isinstance(v, ast.Call) for v in vals or []), "_add_exchange: the stored exchange is built by %s -- a representation other than the pair (monitor, handle) is outside the rule's vocabulary" % stmt_text((vals or [None])[0]))
+        for v in vals or []:
+            if not (isinstance(v, (ast.Tuple, ast.List)) and len(v.elts) == 2 and _is_name(fi, v.elts[0], p[1])):
+                ok = False
+                continue
+            h = resolve_local(fi.node, v.elts[1])
+            if not (isinstance(h, ast.Call) and any(h is c_ for c_ in K.self_calls(fi, "_schedule_retransmit"))):
+                ok = False
+        if a_.how == "setdefault":
+            ok = False  # would keep the timer of an older exchange under the same key
+        ctx.ob("the stored exchange is (error monitor, handle of the scheduled retransmission)", ok, fi, a_.node)
 
-    # _remove_exchange
-    fi = ctx.prog.func(MM + "_remove_exchange")
+    # _remove_exchange, on its path model with the message type as finite-domain subject
+    fi = _fn(ctx, "_remove_exchange")
     m = _msgparam(fi)
-    cfg = cfg_of(fi)
-    pops = [(k, n) for k, n in stores_to(fi.node, "self._active_exchanges") if k in ("pop", "delitem")]
-    ctx.floor("removals in _remove_exchange", len(pops), 1)
-    for kind, pop in pops:
-        nid = cfg.loc1(pop)
-        key = pop.args[0] if kind == "pop" else None
-        guarded = guarded_by(cfg, nid, "$k in self._active_exchanges", True)
-        ctx.ob("an ACK/RST that matches no exchange changes nothing (removal is guarded by key membership)", guarded, fi, pop)
-        # find the names bound from the pop
-        stmt = cfg.nodes[nid].ast
-        mon = han = None
-        if isinstance(stmt, ast.Assign) and isinstance(stmt.targets[0], (ast.Tuple, ast.List)) and len(stmt.targets[0].elts) == 2:
-            mon, han = [e.id if isinstance(e, ast.Name) else None for e in stmt.targets[0].elts]
-        ctx.need(mon and han, "_remove_exchange: popped exchange is not unpacked into (monitor, handle)")
-        cancels = [cfg.loc1(n) for n, _ in find("%s.cancel()" % han, fi.node)]
-        ctx.ob("the stored retransmission timer is cancelled on every normal path after the removal", bool(cancels) and cfg.must_pass(nid, cancels), fi, pop,
-               detail="%d cancel site(s)" % len(cancels))
-        mcalls = [n for n, _ in find("%s()" % mon, fi.node)]
-        ok_exists = bool(mcalls)
-        ctx.ob("a Reset fires the error monitor of the exchange", ok_exists, fi, pop, detail="no call of the popped monitor" if not ok_exists else None)
-        for mc in mcalls:
-            mn = cfg.loc1(mc)
-            alive, others = mtype_values(guard_exprs(cfg, mn), "%s.mtype" % m, ("CON", "NON", "ACK", "RST"))
-            ctx.ob("the error monitor is fired only for a Reset", alive == {"RST"}, fi, mc, detail="fires for mtype in %s" % sorted(alive))
-        # RST path must reach the monitor: from the pop, avoiding monitor calls, along edges where mtype is RST ... approximated:
-        # every monitor call is guarded by exactly the RST test and the membership test, nothing else
-        for mc in mcalls:
-            mn = cfg.loc1(mc)
-            alive, others = mtype_values(guard_exprs(cfg, mn), "%s.mtype" % m, ("CON", "NON", "ACK", "RST"))
-            extra = [e for e, pol in others if match("$k in self._active_exchanges", e) is None and match("$k not in self._active_exchanges", e) is None]
-            ctx.ob("no further condition suppresses the monitor on a matching Reset", not extra, fi, mc, detail="; ".join(stmt_text(e) for e in extra))
+    subj = "%s.mtype" % m
+    pf = K.PathFacts(fi, subjects={subj: MTYPES})
+    cfg = pf.cfg
+    paths = pf.paths()
+    acc = K.table_accesses(fi, TABLE, nested=False)
+    removes = [a_ for a_ in acc if a_.kind == "remove"]
+    if not ctx.ob("a matching ACK/RST takes the exchange out of _active_exchanges", bool(removes), fi, fi.node, construct="_remove_exchange: removal of the matched exchange"):
+        return
+    # the expressions that evaluate to the stored pair: the popped value, or a read under the same key
+    sources = [a_.node for a_ in removes if a_.how == "pop"] + [a_.node for a_ in acc if a_.kind == "read"]
+    pair = K.Pair(fi, sources)
+    cancel_calls = [c_ for c_ in calls_in(fi.node) if isinstance(c_.func, ast.Attribute) and c_.func.attr == "cancel" and not c_.args and pair.is_comp(c_.func.value, 1)]
+    monitor_calls = [c_ for c_ in calls_in(fi.node) if pair.is_comp(c_.func, 0)]
+    traced = bool(pair.holders or pair.comp[0] or pair.comp[1])
+    ctx.need(traced or not sources, "_remove_exchange: how the removed exchange (monitor, handle) is taken apart is outside the rule's vocabulary")
+    cancel_nodes, monitor_nodes = set(), set()
+    for c_ in cancel_calls:
+        cancel_nodes |= pf.nodes_of(c_)
+    for c_ in monitor_calls:
+        monitor_nodes |= pf.nodes_of(c_)
+    def effective(q, a_=None):
+        """Does path q really take an exchange out?  It passes a removal, and -- for pop(key, default) -- its
+        branch outcomes do not establish that the popped value is the default (nothing was stored)."""
+        hit = [x for x in removes if (a_ is None or x is a_) and pf.nodes_of(x.node) & set(q.nodes)]
+        if not hit:
+            return False
+        if all(x.how == "pop" and x.default is not None for x in hit):
+            for n in q.nodes:
+                nd = cfg.nodes[n]
+                if nd.kind in ("T", "F") and isinstance(nd.ast, ast.expr) and _null_outcome(pair, nd.ast, nd.kind == "T"):
+                    return False
+        return True
+
+    # "An ACK/RST that matches no exchange changes nothing" -- accepted forms, each of which implies that the
+    # removal cannot fail on an unknown key and that the (monitor, handle) of *another* exchange is never touched:
+    #  (a) the removal is dominated by a branch outcome establishing `key in table` (`in` / `not in`, or a
+    #      `table.get(key)` that is truthy / `is not None`: stored values are non-empty pairs) -- never reached otherwise;
+    #  (b) `table.pop(key)` inside a try whose handler catches KeyError -- pop raises before any effect; the
+    #      components are unbound in the handler, so it cannot cancel or fire anything;
+    #  (c) `table.pop(key, default)` where every unpacking / use of the popped value is dominated by a branch
+    #      outcome establishing that it is not None (a path on which it *is* None counts as "no removal" below).
+    for a_ in removes:
+        nid = cfg.loc1(a_.node)
+        tolerant = _membership_evidence(fi, cfg, nid, a_.key) or _catches_keyerror(cfg, nid)
+        if not tolerant and a_.how == "pop" and a_.default is not None:
+            # pop(key, None): the components are used only where the popped value is known to be an exchange
+            users = [s for s in pair.bind_stmts] + cancel_calls + monitor_calls
+            tolerant = bool(users) and all(_nonnull_evidence(fi, cfg, cfg.loc1(u), pair) or (isinstance(u, ast.Assign) and isinstance(u.targets[0], ast.Name)) for u in users)
+        ctx.ob("an ACK/RST that matches no exchange changes nothing (removal is guarded by key membership)", tolerant, fi, a_.node)
+        through = [q for q in paths if effective(q, a_)]
+        ctx.need(through, "_remove_exchange: removal on no normal path")
+        # after the removal the stored timer is cancelled on every normal path
+        uncancelled = next((q for q in through if not (cancel_nodes & set(q.nodes))), None)
+        ctx.ob("the stored retransmission timer is cancelled on every normal path after the removal", bool(cancel_nodes) and uncancelled is None, fi, a_.node,
+               detail="%d cancel site(s)%s" % (len(cancel_calls), "; none on the path [%s]" % pf.describe(uncancelled) if uncancelled is not None else ""))
+        # the monitor fires exactly for a Reset: on every path through the removal, "monitor called" <=> mtype is RST
+        ctx.ob("a Reset fires the error monitor of the exchange", bool(monitor_calls), fi, a_.node, detail=None if monitor_calls else "no call of the popped monitor")
+        bad_only = bad_when = None
+        for q in through:
+            fired = any(n in monitor_nodes for n in q.nodes)
+            mt = q.values.get(subj)
+            if fired and mt != "RST" and bad_only is None:
+                bad_only = "fires for mtype %s on the path [%s]" % (mt or "of any value", pf.describe(q))
+            if not fired and mt in (None, "RST") and bad_when is None:
+                bad_when = "no monitor call on the path [%s]" % pf.describe(q)
+        if monitor_calls:
+            ctx.ob("the error monitor is fired only for a Reset", bad_only is None, fi, monitor_calls[0], detail=bad_only)
+            ctx.ob("no further condition suppresses the monitor on a matching Reset", bad_when is None, fi, monitor_calls[0], detail=bad_when)
+    # without a removal (unknown key) neither timer nor monitor is touched
+    stray = next((q for q in paths if not effective(q) and ((cancel_nodes | monitor_nodes) & set(q.nodes))), None)
+    ctx.ob("timer and monitor are touched only for the exchange that was removed", stray is None, fi, fi.node, construct="_remove_exchange: effects without removal",
+           detail="path [%s]" % pf.describe(stray) if stray is not None else None)
+
+
+def _null_outcome(pair, e, outcome):
+    """Does the branch outcome `e is outcome` establish that the pair-valued expression is None / empty?"""
+    if isinstance(e, ast.Compare) and len(e.ops) == 1 and isinstance(e.ops[0], (ast.Is, ast.IsNot, ast.Eq, ast.NotEq)) and isinstance(e.comparators[0], ast.Constant) and e.comparators[0].value is None:
+        return pair.is_pair(e.left) and outcome == isinstance(e.ops[0], (ast.Is, ast.Eq))
+    return pair.is_pair(e) and not outcome
+
+
+def _nonnull_evidence(fi, cfg, nid, pair):
+    for e, pol in guard_exprs(cfg, nid):
+        for _ in range(4):
+            if isinstance(e, ast.UnaryOp) and isinstance(e.op, ast.Not):
+                e, pol = e.operand, not pol
+            else:
+                break
+        if isinstance(e, ast.Compare) and len(e.ops) == 1 and isinstance(e.ops[0], (ast.Is, ast.IsNot)) and isinstance(e.comparators[0], ast.Constant) and e.comparators[0].value is None:
+            if pair.is_pair(e.left) and pol == isinstance(e.ops[0], ast.IsNot):
+                return True
+        elif pol and pair.is_pair(e):
+            return True
+    return False
 
 
 @R.clause("C03.e", "dispatch_message removes the exchange exactly for incoming ACK and RST")
 def e(ctx):
-    fi = ctx.prog.func(MM + "dispatch_message")
+    fi = _fn(ctx, "dispatch_message")
     m = _msgparam(fi)
-    cfg = cfg_of(fi)
-    calls = list(find("self._remove_exchange($x)", fi.node))
+    subj = "%s.mtype" % m
+    rm = ctx.prog.func(MM + "_remove_exchange")
+    calls = K.self_calls(fi, "_remove_exchange")
     ctx.floor("_remove_exchange call sites in dispatch_message", len(calls), 1)
-    union = set()
-    for call, b in calls:
-        nid = cfg.loc1(call)
-        alive, others = mtype_values(guard_exprs(cfg, nid), "%s.mtype" % m, ("CON", "NON", "ACK", "RST"))
-        extra = [stmt_text(e) for e, pol in others if "_deduplicate_message" not in stmt_text(e) and "is_request" not in stmt_text(e)]
-        ctx.ob("exchange removal is passed the incoming message", isinstance(b["x"], ast.Name) and b["x"].id == m, fi, call)
-        ctx.ob("exchange removal is not restricted by conditions other than the message type", not extra, fi, call, detail="; ".join(extra))
-        if not extra:
-            union |= alive
-    ctx.ob("exchange removal happens exactly for ACK and RST", union == {"ACK", "RST"}, fi, calls[0][0], detail="removal for mtype in %s" % sorted(union))
+    for call in calls:
+        ba = K.method_args(rm, call)
+        ctx.ob("exchange removal is passed the incoming message", ba is not None and _is_name(fi, ba[params(rm)[0]], m), fi, call)
+    # Path model with the message type as finite-domain subject: every complete normal path carries the type it
+    # is taken for (if it tests the type at all) and the decisions on all other atomic conditions.
+    pf = K.PathFacts(fi, subjects={subj: MTYPES})
+    pm, cfg = pf.pm, pf.cfg
+    paths = pf.paths()
+    rnodes = set()
+    for call in calls:
+        rnodes |= pf.nodes_of(call)
+    removed_for = set()
+    untyped = None
+    for q in paths:
+        if rnodes & set(q.nodes):
+            if subj in q.values:
+                removed_for.add(q.values[subj])
+            else:
+                untyped = q
+    ctx.ob("exchange removal happens exactly for ACK and RST", removed_for == {"ACK", "RST"} and untyped is None, fi, calls[0],
+           detail="removal for mtype in %s%s" % (sorted(removed_for), "; and regardless of the type on the path [%s]" % pf.describe(untyped) if untyped is not None else ""))
+    # whether an ACK/RST is removed may depend on the duplicate filter (requests only, C04) and on nothing else:
+    # two paths of the same type that agree on the filter's atoms (is_request of the code, result of
+    # _deduplicate_message) agree on the removal
+    filt = set()
+    for n in cfg.nodes:
+        if n.kind == "test" and any(isinstance(c_, ast.Call) and isinstance(c_.func, ast.Attribute) and c_.func.attr in ("_deduplicate_message", "is_request") for c_ in ast.walk(n.ast)):
+            filt.add(pm.key_of(n)[0])
+    groups = {}
+    for q in paths:
+        if q.values.get(subj) in ("ACK", "RST"):
+            k = (q.values[subj], tuple(sorted((a_, v) for a_, v in q.decisions.items() if a_ in filt)))
+            groups.setdefault(k, []).append(q)
+    extra = None
+    for k, qs in sorted(groups.items()):
+        with_, without = [q for q in qs if rnodes & set(q.nodes)], [q for q in qs if not (rnodes & set(q.nodes))]
+        if with_ and without and extra is None:
+            diff = sorted(a_ for a_ in set(with_[0].decisions) | set(without[0].decisions) if with_[0].decisions.get(a_) != without[0].decisions.get(a_))
+            extra = "for %s the removal also depends on: %s" % (k[0], "; ".join(diff))
+    ctx.ob("exchange removal is not restricted by conditions other than the message type", extra is None, fi, calls[0], detail=extra)
     # no earlier filter swallows the ACK/RST: evaluate dispatch_message for every (type, boundary code) with the
     # duplicate filter reporting a hit wherever it is consulted -- an ACK or RST must still reach _remove_exchange
     # unless it carries a request code (those are de-duplicated by design, C04)
@@ -376,49 +642,43 @@ def e(ctx):
             it.run()
             if "remove_exchange" not in it.trace:
                 swallowed.append((mtype, code, list(it.trace)))
-    ctx.ob("every incoming ACK/RST that is not a request reaches the exchange removal (no earlier filter drops it)", not swallowed, fi, calls[0][0],
+    ctx.ob("every incoming ACK/RST that is not a request reaches the exchange removal (no earlier filter drops it)", not swallowed, fi, calls[0],
            construct="dispatch_message: ACK/RST path to _remove_exchange", detail="e.g. %s" % (swallowed[:2],) if swallowed else None)
 
 
 @R.clause("C03.f", "the give-up arm fails the remote's requests with a timeout-class NetworkError")
 def f(ctx):
-    fi, p, cfg = _retransmit_parts(ctx)
+    fi, p, pf, want, notwant = _retransmit_model(ctx)
     m, t, c = p
-    calls = list(find("self.token_manager.dispatch_error($e, $r)", fi.node))
-    ctx.floor("dispatch_error sites in _retransmit", len(calls), 1)
-    N = Normalizer()
-    want = ("lt", Poly.atom(c) - Poly.atom("%s.transport_tuning.MAX_RETRANSMIT" % m))
-    giveup_nodes = []
-    for call, b in calls:
-        nid = cfg.loc1(call)
-        facts = cmp_guard_nf(cfg, nid, N)
-        in_giveup = N.negate(want) in facts
-        if in_giveup:
-            giveup_nodes.append(nid)
-        ctx.ob("the error is dispatched for the message's remote", chain(b["r"]) == m + ".remote", fi, call)
-        e = b["e"]
-        cls = None
-        if isinstance(e, ast.Call):
-            cls = ctx.prog.resolve_in_module(fi.module, chain(e.func) or "?")
-        ok = cls is not None and ctx.prog.is_subclass(cls, "aiocoap.error.TimeoutError") and ctx.prog.is_subclass(cls, "aiocoap.error.NetworkError") and ctx.prog.is_subclass(cls, "aiocoap.error.Error")
-        ctx.ob("the dispatched error is a timeout-class NetworkError derived from error.Error", ok, fi, call, detail="class %s, mro %s" % (cls, ctx.prog.mro(cls) if cls else None))
-    # every path through the give-up arm reaches the dispatch: the give-up side
-    # of the branch on (counter, MAX_RETRANSMIT) is the one from which no
-    # transmission is reachable
-    send_nodes = {cfg.loc1(s) for s, _ in find("self._send_via_transport($*a)", fi.node)}
-    sides = []
-    for n in cfg.nodes:
-        if n.kind in ("T", "F") and isinstance(n.ast, ast.Compare):
-            try:
-                atoms = N.cmp(n.ast)[1].atoms() if N.cmp(n.ast)[0] in ("lt", "le", "eq", "ne") and isinstance(N.cmp(n.ast)[1], Poly) else set()
-            except norm.NormError:
-                atoms = set()
-            if {c, "%s.transport_tuning.MAX_RETRANSMIT" % m} <= atoms and not (cfg.reach({n.id}) & send_nodes):
-                sides.append(n)
-    ctx.need(sides, "_retransmit has no give-up side of a branch on (counter, MAX_RETRANSMIT)")
-    all_dispatch = [cfg.loc1(call) for call, _ in calls]
-    for n in sides:
-        ctx.ob("when retransmissions are exhausted every normal path reports the failure", cfg.must_pass(n.id, all_dispatch), fi, n.ast)
+    paths = pf.paths()
+    tm = ctx.prog.func("tokenmanager.TokenManager.dispatch_error")
+    tp = params(tm)
+    calls = K.calls_on(fi, "self.token_manager", ("dispatch_error",))
+    dnodes = set()
+    for call in calls:
+        dnodes |= pf.nodes_of(call)
+    # every path on which the branch outcomes establish NOT (counter < MAX_RETRANSMIT) reports the failure
+    giveup = [q for q in paths if notwant in pf.facts(q)]
+    ctx.need(giveup, "_retransmit has no path on which counter >= MAX_RETRANSMIT is established")
+    silent = next((q for q in giveup if not (dnodes & set(q.nodes))), None)
+    ctx.ob("when retransmissions are exhausted every normal path reports the failure", silent is None, fi, fi.node, construct="_retransmit: give-up path reports the failure",
+           detail="path [%s] ends without token_manager.dispatch_error" % pf.describe(silent) if silent is not None else None)
+    for call in calls:
+        ba = K.method_args(tm, call)
+        ctx.need(ba is not None, "dispatch_error call with a shape outside the rule's vocabulary")
+        ctx.ob("the error is dispatched for the message's remote", K.canon_chain(fi, ba[tp[1]]) == m + ".remote" and _is_param_unmodified(fi, m), fi, call)
+        vals = K.possible_values(fi, ba[tp[0]]) or []
+        ok = bool(vals)
+        clss = []
+        for v in vals:
+            cls = None
+            if isinstance(v, ast.Call) and chain(resolve_local(fi.node, v.func)):
+                cls = ctx.prog.resolve_in_module(fi.module, chain(resolve_local(fi.node, v.func)))
+            clss.append(cls)
+            if not (cls is not None and cls in ctx.prog.classes and ctx.prog.is_subclass(cls, "aiocoap.error.TimeoutError") and ctx.prog.is_subclass(cls, "aiocoap.error.NetworkError") and ctx.prog.is_subclass(cls, "aiocoap.error.Error")):
+                ok = False
+        ctx.ob("the dispatched error is a timeout-class NetworkError derived from error.Error", ok, fi, call,
+               detail="class %s, mro %s" % (clss, [ctx.prog.mro(x) if x else None for x in clss]))
     # the error reaches every outstanding request of that remote (shared with C02.e: per-remote fan-out,
     # each stopper bound to its own request, NetworkError conversion)
     from . import c02
@@ -437,18 +697,27 @@ REF = {
     "EXCHANGE_LIFETIME": "T * (2**N - 1) * F + 2*L + T",
 }
 DEFAULTS = {"ACK_TIMEOUT": 2, "ACK_RANDOM_FACTOR": Fraction(3, 2), "MAX_RETRANSMIT": 4, "MAX_LATENCY": 100, "NSTART": 1}
+_PROPERTY_DECORATORS = {"property", "functools.cached_property", "cached_property"}
 
 
 def tuning_chain_env(prog):
-    """self.X -> return expression of property X of TransportTuning"""
+    """self.X -> value expression of property X of TransportTuning: the returned expression with the
+    property's own single-assignment locals and straight-line helper calls substituted (closed over self.*)."""
     ci = prog.cls("numbers.constants.TransportTuning")
     env = {}
     for name, fi in ci.methods.items():
-        decos = [ast.unparse(d) for d in fi.node.decorator_list]
-        if "property" in decos:
+        decos = {ast.unparse(d) for d in fi.node.decorator_list}
+        if decos & _PROPERTY_DECORATORS:
             rets = [n for n in walk_no_nested(fi.node) if isinstance(n, ast.Return)]
             if len(rets) == 1 and rets[0].value is not None:
-                env["self." + name] = rets[0].value
+                env["self." + name] = K.closed(prog, fi, rets[0].value)
+    for name, v in ci.attrs.items():
+        # NAME = property(lambda self: <expr>)
+        if "self." + name not in env and isinstance(v, ast.Call) and chain(v.func) in _PROPERTY_DECORATORS and len(v.args) == 1 and isinstance(v.args[0], ast.Lambda):
+            lam = v.args[0]
+            ps = [x.arg for x in lam.args.posonlyargs + lam.args.args]
+            if len(ps) == 1:
+                env["self." + name] = K.subst(lam.body, {ps[0]: ast.Name(id="self", ctx=ast.Load())}) if ps[0] != "self" else lam.body
     return ci, env
 
 
@@ -458,36 +727,75 @@ def g(ctx):
     rename = {"self.ACK_TIMEOUT": "T", "self.ACK_RANDOM_FACTOR": "F", "self.MAX_RETRANSMIT": "N", "self.MAX_LATENCY": "L"}
     for name, ref in REF.items():
         ctx.need("self." + name in env, "TransportTuning.%s is not a single-return property" % name)
-        fi = ci.methods[name]
-        got = Normalizer(rename=rename, chain_env=env).poly(env["self." + name])
+        fi = ci.methods.get(name)
+        try:
+            got = Normalizer(rename=rename, chain_env=env).poly(env["self." + name])
+        except norm.NormError as ex:
+            raise AnalysisError("TransportTuning.%s: %s" % (name, ex))
         want = Normalizer().poly(ast.parse(ref, mode="eval").body)
-        ctx.ob("TransportTuning.%s == %s" % (name, ref), got == want, fi, fi.node, detail="normal form %r" % got, construct="TransportTuning.%s" % name)
+        ctx.ob("TransportTuning.%s == %s" % (name, ref), got == want, fi, fi.node if fi is not None else None, detail="normal form %r" % got, construct="TransportTuning.%s" % name)
     for name, val in DEFAULTS.items():
         ctx.need(name in ci.attrs, "TransportTuning.%s default missing" % name)
         try:
             v = norm.consteval(ci.attrs[name])
         except norm.NormError:
             v = None
-        ctx.ob("default %s == %s" % (name, val), v is not None and Fraction(v) == Fraction(val), None, None, construct="TransportTuning.%s = %s" % (name, ast.unparse(ci.attrs[name])), detail="value %r" % v)
+        ok = v is not None and not isinstance(v, (str, bytes, tuple)) and Fraction(v) == Fraction(val)
+        ctx.ob("default %s == %s" % (name, val), ok, None, None, construct="TransportTuning.%s = %s" % (name, ast.unparse(ci.attrs[name])), detail="value %r" % v)
+
+
+def _tuning_base_ok(prog, fi, base, mod_funcs, depth=3):
+    """Does the object a tuning parameter is read from denote `<something>.transport_tuning`?
+    Accepted: the attribute itself; a local all of whose bindings are such objects; a parameter of a helper
+    for which *every* call site in the module passes such an object (the read then still goes through the
+    transport tuning of whatever message the caller holds)."""
+    if isinstance(base, ast.Attribute):
+        return base.attr == "transport_tuning"
+    if not isinstance(base, ast.Name) or depth == 0:
+        return False
+    fnode = fi.node
+    ws = writes_to_name(fnode, base.id)
+    if ws:
+        vals = K.possible_values(fi, base)
+        return bool(vals) and all(v is not base and _tuning_base_ok(prog, fi, v, mod_funcs, depth - 1) for v in vals)
+    a = fnode.args
+    pnames = [x.arg for x in a.posonlyargs + a.args + a.kwonlyargs]
+    if base.id not in pnames:
+        return False
+    sites = 0
+    for caller in mod_funcs:
+        for call in calls_in(caller.node):
+            target = K.resolve_callee(prog, caller, call)
+            if target is None or target.node is not fnode:
+                continue
+            b = K.method_args(fi, call)
+            if b is None or base.id not in b:
+                return False
+            sites += 1
+            if not _tuning_base_ok(prog, caller, b[base.id], mod_funcs, depth - 1):
+                return False
+    return sites > 0
 
 
 @R.clause("C03.h", "every tuning parameter read in messagemanager.py goes through <message>.transport_tuning")
 def h(ctx):
     mod = ctx.prog.module("messagemanager")
+    mod_funcs = [fi for fi in ctx.prog.funcs.values() if fi.module is mod]
     reads = 0
-    for fi in ctx.prog.funcs.values():
-        if fi.module is not mod:
-            continue
+    for fi in mod_funcs:
         for n in walk_no_nested(fi.node):
             bad = None
             if isinstance(n, ast.Attribute) and n.attr in TUNING:
-                ok = isinstance(n.value, ast.Attribute) and n.value.attr == "transport_tuning"
                 reads += 1
-                if not ok:
+                if not _tuning_base_ok(ctx.prog, fi, n.value, mod_funcs):
                     bad = n
             elif isinstance(n, ast.Name) and n.id in TUNING:
                 reads += 1
                 bad = n
+            elif isinstance(n, ast.Call) and chain(n.func) == "getattr" and len(n.args) >= 2 and isinstance(n.args[1], ast.Constant) and n.args[1].value in TUNING:
+                reads += 1
+                if not _tuning_base_ok(ctx.prog, fi, n.args[0], mod_funcs):
+                    bad = n
             if bad is not None:
                 ctx.ob("tuning parameter read through the message's transport_tuning", False, fi, bad)
     ctx.floor("tuning parameter reads in messagemanager.py", reads, 6)
@@ -519,3 +827,16 @@ R.seed("C03.f", F_MM, "                error.ConRetransmitsExceeded(\"Retransmis
 R.seed("C03.g", "aiocoap/numbers/constants.py", "            * (2 ** (self.MAX_RETRANSMIT + 1) - 1)", "            * (2 ** (self.MAX_RETRANSMIT) - 1)")
 R.seed("C03.g", "aiocoap/numbers/constants.py", "    MAX_RETRANSMIT = 4\n", "    MAX_RETRANSMIT = 5\n")
 R.seed("C03.h", F_MM, "message.transport_tuning.EXCHANGE_LIFETIME,", "TransportTuning().EXCHANGE_LIFETIME,")
+
+# seeds for the generalised clauses (each generalisation must still bite)
+R.seed("C03.a", F_MM, "            self._retransmit(message, timeout, retransmission_counter)\n\n        return self.loop.call_later(timeout, retr)", "            self._retransmit(message, timeout, 0)\n\n        return self.loop.call_later(timeout, retr)", "the callback resets the counter: retransmissions never end")
+R.seed("C03.a", F_MM, "            timeout=timeout,\n            retransmission_counter=retransmission_counter,\n            doc=", "            timeout=timeout * 2,\n            retransmission_counter=retransmission_counter,\n            doc=", "default-argument binding of the callback carries another timeout than the armed one")
+R.seed("C03.b", F_MM, "            next_retransmission = self._schedule_retransmit(\n                message, timeout, retransmission_counter\n            )\n            self._active_exchanges[key] = (messageerror_monitor, next_retransmission)\n", "            pass\n", "no new timer after a retransmission: the exchange stalls without ever giving up")
+R.seed("C03.b", F_MM, "            self._send_via_transport(message)\n            retransmission_counter += 1", "            self._send_via_transport(message)\n            self._send_via_transport(message)\n            retransmission_counter += 1", "two copies per timer expiry")
+R.seed("C03.d", F_MM, "        if key not in self._active_exchanges:\n            # Before turning", "        if False:\n            # Before turning", "stray ACK raises KeyError instead of being ignored")
+R.seed("C03.d", F_MM, "        if message.mtype is RST:\n            messageerror_monitor()", "        if message.mtype is ACK:\n            messageerror_monitor()", "ACK fails the request, Reset does not")
+R.seed("C03.e", F_MM, "        if message.mtype in (ACK, RST):\n            self._remove_exchange(message)", "        if message.mtype in (ACK, RST, NON):\n            self._remove_exchange(message)", "a NON with a matching message ID ends the exchange")
+R.seed("C03.e", F_MM, "        if message.mtype in (ACK, RST):\n            self._remove_exchange(message)", "        if message.mtype in (ACK, RST) and message.code is EMPTY:\n            self._remove_exchange(message)", "piggy-backed responses no longer stop the retransmission")
+R.seed("C03.f", F_MM, "            self.token_manager.dispatch_error(\n                error.ConRetransmitsExceeded(\"Retransmissions exceeded\"), message.remote\n            )", "            pass", "give-up without telling anyone: the request hangs")
+R.seed("C03.f", F_MM, "error.ConRetransmitsExceeded(\"Retransmissions exceeded\"), message.remote", "error.ConRetransmitsExceeded(\"Retransmissions exceeded\"), None", "timeout reported for no remote")
+R.seed("C03.g", "aiocoap/numbers/constants.py", "        return 2 * self.MAX_LATENCY + self.PROCESSING_DELAY", "        return self.MAX_LATENCY + self.PROCESSING_DELAY")
